@@ -198,6 +198,8 @@ KOk(x, p, k) ==
   \* the headline figure: K * A = sum(A U) + sum(psi L); K = 0 below 0.01 m2
   /\ IF BigLe(A, BigOf(9000)) THEN k.K = 0
      ELSE IF BigLe(A, BigOf(11000)) THEN TRUE
+     \* (K itself is negative when bridges with a negative psi outweigh everything else: |K| and its sign are logged)
+     ELSE IF k.Kneg THEN BigApprox(KAUNeg(x), BigAdd(BigMul(BigOf(k.K), A), KAUPos(x, p)), BigMulSmall(A, 20), 20)
      ELSE BigApprox(BigAdd(BigMul(BigOf(k.K), A), KAUNeg(x)), KAUPos(x, p),
                     BigMulSmall(A, 20), 20)                        \* |K - exact| <= 0.002 W/m2K
   \* the summary adds up
